@@ -11,6 +11,9 @@ checks = {
  "C03": dict(technique="runtime monitoring: generated slice/string programs executed under real /bin/bash, judged by an independent reference interpreter",
    text="Differential runtime monitoring of slice and string operations: all substring index pairs up to length 12, growth/gap-fill for old lengths 0..12, aliasing chains, copy for all length pairs, range forms, plus a random sweep with arbitrary int index expressions.",
    note="Trusted: RefLang interpreter (slices as shared growable vectors), /bin/bash 5.2. Undefined cases (out-of-range, resize while ranging, copy into longer dst) discarded.", ref="§3 C03"),
+ "C07": dict(technique="runtime monitoring: exhaustive (definition site, use site) table over a block skeleton fed to the real Transpile, verdicts compared with a scope calculator",
+   text="Exhaustive table monitor over a 25-site block skeleton: every ordered pair of definition and use site x definition/use kinds, redefinitions, header variables, function definition x call site, break/continue/return/func placement at every site, import-boundary uses at every site, plus fixed scope cells; both targets; expected verdict computed by an independent scope calculator over the block tree.",
+   note="Trusted: the scope calculator (rules of the property statement). One skeleton (nesting depth 3); break in a switch outside loops not asserted.", ref="§3 C07"),
  "C06": dict(technique="runtime monitoring: exhaustive position x type x context table of minimal programs fed to the real Transpile for both targets, verdicts compared with a typing oracle",
    text="Exhaustive table monitor: ~230 typed positions x 8 offered types (28 spellings) x 5 contexts, each rendered as a program that is otherwise well typed, transpiled for Bash and Batch by the real library; accept/reject must equal the table's verdict and agree between targets; a crash instead of an error is a violation. Thorough adds 20 000 generated programs with one ill-typed position.",
    note="Trusted: the verdict table (Go typing rules + README signatures). Exclusions as stated by the property; nil offered where a slice is wanted is not asserted.", ref="§3 C06"),
